@@ -110,6 +110,14 @@ def firstDuplicate : List String → List String → Option String
   | _, [] => none
   | seen, n :: rest => if n != "_" && seen.contains n then some n else firstDuplicate (n :: seen) rest
 
+/-- the names the generated function declares in its outermost scope -/
+def scopeNames (srcVar dstVar : Var) (argVars : List Var) (retError : Bool) : List String :=
+  [srcVar.name, dstVar.name] ++ argVars.map (·.name) ++ (if retError then ["err"] else [])
+
+/-- the first operand name that the element loop of a slice copy would shadow -/
+def shadowedByLoop (stmts : List Stmt) (names : List String) : Option String :=
+  if Stmt.listUsesLoop stmts then names.find? (fun n => n == "i" || n == "e") else none
+
 /-- the second half of `CreateFunction`: build the body, then the hooks -/
 def buildFunction (env : Env) (eng : Engine) (m : MethodEntry) (src dst : ParamVar) (additional : List ParamVar)
     (srcVar dstVar : Var) (argVars : List Var) : Outcome Built := do
@@ -122,6 +130,10 @@ def buildFunction (env : Env) (eng : Engine) (m : MethodEntry) (src dst : ParamV
   let retError := m.retError env
   let late (msgs : List String) : Outcome Built :=
     .ok { fn := default, stmts := stmts, warnings := Stmt.listWarnings stmts, lateError := some (msgs.headD "") }
+  -- the loop that copies slice elements declares `i` and `e`: an operand of that name would be shadowed
+  match shadowedByLoop stmts (scopeNames srcVar dstVar argVars retError) with
+  | some n => late [s!"{m.decl.pos}: the name {n} is used by the loop that copies slice elements"]
+  | none =>
   match buildManipulator env m.opts.preProcess src dst additional retError with
   | .error msgs => late msgs
   | .panic s => .panic s
@@ -136,10 +148,6 @@ def buildFunction (env : Env) (eng : Engine) (m : MethodEntry) (src dst : ParamV
             assignments := Stmt.listToAssignments env stmts, preProcess := pre, postProcess := post },
     stmts := stmts,
     warnings := Stmt.listWarnings stmts }
-
-/-- the names the generated function declares in its outermost scope -/
-def scopeNames (srcVar dstVar : Var) (argVars : List Var) (retError : Bool) : List String :=
-  [srcVar.name, dstVar.name] ++ argVars.map (·.name) ++ (if retError then ["err"] else [])
 
 /-- the name check and what follows it -/
 def checkNamesAndBuild (env : Env) (eng : Engine) (m : MethodEntry) (src dst : ParamVar) (additional : List ParamVar)
